@@ -21,7 +21,44 @@ def case_prog(p: Dict[str, Any], values: Any) -> Dict[str, Any]:
 
 
 def tagkey(prog: Dict[str, Any]) -> str:
-    return "/".join(prog["tags"][:2])
+    """Finding-class part of a key: for composed programs the SET of templates (+ the set of non-automatic
+    position modes), so that all programs exhibiting one defect share few keys; see minimize_keys()."""
+    tags = prog["tags"]
+    if tags and tags[0] == "prog":
+        tset = "+".join(sorted(set(tags[1].split("+"))))
+        modes = "".join(sorted(set(tags[2].split(":")[1]) - {"a"}))
+        return f"prog/{tset}" + (f"/modes={modes}" if modes else "")
+    return "/".join(tags[:2])
+
+
+def _key_sets(key: str) -> Optional[Tuple[frozenset, frozenset, str]]:
+    parts = key.split("/")
+    if len(parts) < 4 or parts[1] != "prog":
+        return None
+    tset = frozenset(parts[2].split("+"))
+    modes = frozenset(parts[3].split("=")[1]) if parts[3].startswith("modes=") else frozenset()
+    return tset, modes, parts[0]
+
+
+def minimize_keys(ctx: Any) -> None:
+    """Drop violation keys of composed programs whose (template set, mode set) strictly contains that of
+    another violating key: they are presumed to show the same defect in a larger program.  The dropped keys are
+    counted in the evidence.  (If the smaller finding is repaired and the larger one persists it is reported.)"""
+    ks = {k: _key_sets(k) for k in ctx.viol}
+    drop = []
+    for k, a in ks.items():
+        if a is None:
+            continue
+        for k2, b in ks.items():
+            if b is None or k2 == k:
+                continue
+            if b[0] <= a[0] and b[1] <= a[1] and (b[0], b[1]) != (a[0], a[1]):
+                drop.append(k)
+                break
+    for k in drop:
+        del ctx.viol[k]
+    if drop:
+        ctx.extra["violation_keys_subsumed_by_smaller_programs"] = len(drop)
 
 
 def library_for(progs: List[Dict[str, Any]]) -> Optional[List[Dict[str, Any]]]:
